@@ -225,9 +225,10 @@ func (e *c10Env) execIncTs(op string, ts uint64) {
 	}
 }
 
-// Known defect: leafValue.lastUpdateBetween bounds its loop over history-log BLOCKS by the number of
-// VERSIONS; with a block of >1 versions and no own version in range it follows prevOff=0 into the block at
-// offset 0 of the history log and returns another key's version (counter hCount-skipped, possibly 0 or wrapped).
+// Repaired defect (kept as a probe: the signature is reported again if it ever returns): leafValue.lastUpdateBetween
+// bounded its loop over history-log BLOCKS by the number of VERSIONS; with a block of >1 versions and no own version
+// in range it followed prevOff=0 into the block at offset 0 of the history log and returned another key's version
+// (counter hCount-skipped, possibly 0 or wrapped).
 const c10OverrunSig = "C10:tbtree.lastUpdateBetween:history-chain-overrun-returns-foreign-version"
 
 func (m *c10Map) hasVersion(k, v []byte, ts uint64) bool {
@@ -708,6 +709,14 @@ func (e *c10Env) execReopen(op string) error {
 	e.atOpen = e.ref.clone()
 	e.past = map[string]*c10Map{}
 	e.remember()
+	// The root as it is stored on disk is lastSnapRoot after Open: a rejected insert rolls back to it and a
+	// snapshot may re-use it. Its ts is recomputed from its content; a larger value in the TIMESTAMP file
+	// (IncreaseTs after the last insert) is applied to the live root only. That stored state is a past state of
+	// the tree (the one right after its last accepted insert).
+	if ld := e.ref.clone(); ld.contentTs() < ld.Ts {
+		ld.Ts = ld.contentTs()
+		e.past[ld.dump()] = ld
+	}
 	e.r.Eval(fmt.Sprintf("reopen.keys%s.compacted%v", sizeBucket(len(e.ref.Es)), best != nil), len(e.ref.Es) > 0)
 	return nil
 }
@@ -1110,13 +1119,11 @@ func c10GenCfg(rng *hx.Rng, thorough bool) c10Cfg {
 	c.FileSize = []int{2048, 16384, 1 << 20}[rng.Intn(3)]
 	c.FlushBuf = 4096
 	// The nodes log is read by concurrent goroutines (innerNode.updateOnInsert inserts into children in
-	// parallel): with fewer cached chunk files than chunks in use, multiapp.appendableFor can return
-	// cache.ErrKeyNotFound (see c10MultiappProbe). The correspondence runs keep every chunk cached.
-	c.NOpen = 4000
+	// parallel; in thorough runs snapshot readers read the history log in parallel): with fewer cached chunk
+	// files than chunks in use, multiapp.appendableFor used to return cache.ErrKeyNotFound (repaired; see
+	// c10MultiappProbe). Small opened-files limits are part of the correspondence runs.
 	c.HOpen = []int{1, 2, 4000}[rng.Intn(3)]
-	if thorough {
-		c.HOpen = 4000 // concurrent snapshot readers read the history log in parallel
-	}
+	c.NOpen = []int{1, 2, 4000}[rng.Intn(3)]
 	c.Cleanup = []float32{0, 0, 10, 50, 100}[rng.Intn(5)]
 	return c
 }
@@ -1259,7 +1266,9 @@ func c10Case(r *hx.Result, rng *hx.Rng, thorough bool, nops int) (err error) {
 // probes for the known findings, replay
 // ---------------------------------------------------------------------------------------------
 
-// c10ReopenProbe: deterministic reproduction of the rollback-to-empty defect.
+// c10ReopenProbe: the input of the (repaired) rollback-to-empty defect: a rejected BulkInsert after Open must roll
+// back to the loaded root, never to an empty tree (signature failed-insert-after-reopen-empties-tree otherwise).
+// c10OverrunProbe: the input of the (repaired) history-chain overrun of lastUpdateBetween.
 func c10ReopenProbe(r *hx.Result, rng *hx.Rng) {
 	r.NextCase()
 	cfg := c10Cfg{MaxKey: 1024, MaxVal: 512, MaxNode: 4096, Cache: 1 << 20, FlushThld: 100000, SyncThld: 1000000, MaxBuf: 1 << 22,
@@ -1285,6 +1294,40 @@ func c10ReopenProbe(r *hx.Result, rng *hx.Rng) {
 		e.exec(op)
 	}
 	r.Eval("probe.reopen-rollback", true)
+}
+
+func c10OverrunProbe(r *hx.Result, rng *hx.Rng) {
+	r.NextCase()
+	cfg := c10Cfg{MaxKey: 1024, MaxVal: 512, MaxNode: 4096, Cache: 1 << 20, FlushThld: 100000, SyncThld: 1000000, MaxBuf: 1 << 22,
+		MaxActive: 100, CompThld: 2, FileSize: 1 << 26, FlushBuf: 4096, NOpen: 10, HOpen: 1}
+	e := c10NewEnv(r, rng, false, cfg)
+	defer e.finish()
+	defer func() {
+		if p := recover(); p != nil {
+			e.fail("C10:tbtree:panic", fmt.Sprint(p))
+		}
+	}()
+	if e.start() != nil {
+		return
+	}
+	for _, op := range []string{
+		"ins 61:7631:1,61:7632:2",
+		"flush 1 0 default 0",
+		// three versions of b move into ONE history-log block; a's block sits at offset 0 of the history log
+		"ins 62:7633:3,62:7634:4,62:7635:5",
+		"flush 1 0 default 0",
+		"getbetween t 62 1 2", // b has no version in [1,2]
+		"getbetween t 62 1 3",
+		"getbetween t 62 1 4",
+		"getbetween t 62 1 5",
+		"getbetween t 61 1 1",
+		"snap 0 0",
+		"scanb 0 - - - 1 1 0 0 1 2", // ReadBetween: only a qualifies
+		"sclose 0",
+	} {
+		e.exec(op)
+	}
+	r.Eval("probe.history-chain-overrun", true)
 }
 
 // c10MultiappProbe: nodes log spread over more chunk files than NodesLogMaxOpenedFiles; a bulk insert
@@ -1373,6 +1416,9 @@ func c10RunReplay(r *hx.Result, rng *hx.Rng, path string) error {
 	case "c10-multiapp-probe":
 		c10MultiappProbe(r, rng, 400)
 		return nil
+	case "c10-overrun-probe":
+		c10OverrunProbe(r, rng)
+		return nil
 	}
 	r.NextCase()
 	e := c10NewEnv(r, rng, false, rf.Replay.Cfg)
@@ -1412,6 +1458,7 @@ func runC10(r *hx.Result, rng *hx.Rng, thorough bool, replay string) error {
 	}
 	rng = rng.Fork() // hx seeds consecutive VERIF_SEEDs with overlapping splitmix streams; decorrelate
 	c10ReopenProbe(r, rng.Fork())
+	c10OverrunProbe(r, rng.Fork())
 	c10MultiappProbe(r, rng.Fork(), map[bool]int{false: 60, true: 400}[thorough])
 	if err := r.Flush(); err != nil {
 		return err
@@ -1446,7 +1493,7 @@ func runC10(r *hx.Result, rng *hx.Rng, thorough bool, replay string) error {
 	r.Extra["cases"] = cases
 	r.Notes = append(r.Notes,
 		"RenewSnapRootAfter=0 (wall-clock snapshot renewal not exercised); Snapshot.Set, SyncSnapshot and HistoryReader not exercised; Reader.Reset only on non-history readers",
-		"NodesLogMaxOpenedFiles is kept above the number of chunk files in the correspondence runs (see finding spurious-cache-key-not-found-from-multiapp, reproduced by a dedicated probe)",
-		"a rejected BulkInsert rolling the tree back to the last flushed root is modelled (DESIGN 9) and counted under ins.failed.rolled-back-…; rolling back to an EMPTY tree after Open is reported as a finding")
+		"NodesLogMaxOpenedFiles / HistoryLogMaxOpenedFiles ∈ {1,2,4000}: chunk files are evicted and re-opened under concurrent readers (repaired finding spurious-cache-key-not-found-from-multiapp; a dedicated probe keeps hammering it)",
+		"a rejected BulkInsert rolling the tree back to the last flushed root — after Open: the loaded root — is modelled (DESIGN 9) and counted under ins.failed.rolled-back-…; rolling back to an EMPTY tree after Open (repaired finding) is reported under its old signature")
 	return nil
 }
